@@ -20,7 +20,8 @@ from .engine import derive, execute, make_program
 from .shrink import shrink
 
 VERIF = os.path.dirname(os.path.dirname(os.path.dirname(os.path.abspath(__file__))))
-REPLAYS = os.path.join(VERIF, "replays")
+# (VERIF_REPLAY_DIR: used by tools/regress_seeded.py so that runs against patched scratch trees leave nothing in /verif)
+REPLAYS = os.environ.get("VERIF_REPLAY_DIR") or os.path.join(VERIF, "replays")
 
 _W = {}
 
